@@ -1,7 +1,7 @@
 """C03 — amplitude-ratio likelihood: correspondence and oracle (incl. quadrature of the defining integral)."""
 import math
 
-from common import Prop, bits, close, reply_floats, import_mtfit, NEG_INF, main
+from common import Failure, Prop, bits, close, reply_floats, import_mtfit, NEG_INF, main
 from c02 import unit6
 
 
@@ -283,6 +283,52 @@ class C03(Prop):
             if abs(impl['total'] - 1.0) > 1e-5:
                 out.append(('ratio-normalisation', 'density integrates to %r over r in (0, inf)' % impl['total'], None))
         return out
+
+    def extra(self, rng, tier):
+        """The amplitude-ratio likelihood reached through the joint (multiple-events) forward task with per-event lists, numerator and denominator
+        uncertainties different: the joint value is the sum of the single-event values, each the ratio density with its own (numerator, denominator) errors."""
+        import contextlib
+        import io
+        np = self.np
+        from MTfit import inversion as inv
+        fails, cov = [], {'joint_ratio_tuples': 0}
+        for rep in range(2 if tier == 'quick' else 8):
+            rs = np.random.RandomState(900 + rep)
+            ne = 2 + rep % 2
+            mats = []
+            for e in range(ne):
+                n = 3 + e
+                st = {'Name': ['S%02d' % i for i in range(n)], 'Azimuth': np.matrix(rs.uniform(0, 360, n)).T, 'TakeOffAngle': np.matrix(rs.uniform(20, 160, n)).T}
+                num, den = rs.uniform(0.5, 3, n), rs.uniform(0.5, 3, n)
+                data = {'P/SHAmplitudeRatio': {'Stations': st, 'Measured': np.matrix(np.vstack([num, den]).T),
+                                               'Error': np.matrix(np.vstack([num * rs.uniform(0.02, 0.1, n), den * rs.uniform(0.3, 0.8, n)]).T)}}
+                mats.append(inv.amplitude_ratio_matrix(data))
+            F = [False] * ne
+            emp3, emp1 = [np.zeros((0, 1, 6))] * ne, [np.zeros((0,))] * ne
+            nt = 5
+            mts = []
+            for e in range(ne):
+                m = rs.randn(6, nt)
+                mts.append(m / np.sqrt((m * m).sum(0)))
+            task = inv.MultipleEventsForwardTask([m.copy() for m in mts], F, F, [m[0] for m in mats], [m[1] for m in mats], [m[2] for m in mats], [m[3] for m in mats],
+                                                 [m[4] for m in mats], F, F, emp3, emp1, emp1, [[] for _ in range(ne)], False, [0] * ne, 2, return_zero=True,
+                                                 relative=False, combine=True)
+            with contextlib.redirect_stdout(io.StringIO()):
+                res = task()
+            lp = res['ln_pdf']
+            got = np.asarray(lp._ln_pdf if hasattr(lp, '_ln_pdf') else lp, dtype=float).flatten()
+            exp = np.zeros(nt)
+            for e in range(ne):
+                r1 = inv.ForwardTask(mts[e].copy(), False, False, mats[e][0], mats[e][1], mats[e][2], mats[e][3], mats[e][4], False, False, False, 0, return_zero=True)()
+                l1 = r1['ln_pdf']
+                exp += np.asarray(l1._ln_pdf if hasattr(l1, '_ln_pdf') else l1, dtype=float).flatten()
+            cov['joint_ratio_tuples'] += nt
+            dev = float(np.max(np.abs(got - exp))) if got.shape == exp.shape else float('inf')
+            if not dev < 1e-8 * (1 + float(np.max(np.abs(exp)))):
+                fails.append(Failure('property', {'kind': 'joint-ratio', 'events': ne, 'rep': rep},
+                                     'joint forward task of %d events with amplitude ratios (numerator and denominator uncertainties different): log-likelihoods differ from the '
+                                     'sum of the single-event ratio likelihoods by %r' % (ne, dev), key='joint-ratio'))
+        return cov, fails[:3]
 
     def nontrivial(self, case, impl):
         if 'mx' in case:
